@@ -14,7 +14,11 @@ def run(ctx):
     ctx.cov["rule"] = ("seeded random full clusters (over-quota / low-priority preemptible work running, pending work of other queues or "
                        "higher priority), preemptible and non-preemptible jobs, 2-3 priorities, 2-3 level queue trees, leaf min-runtime "
                        "settings with start times hours away from the limits; non-trivial = the real scheduler evicted at least one pod")
-    n = 300 if ctx.quick else 8000
+    n = 1200 if ctx.quick else 12000
     st_cluster.run_stage(ctx, PREFIXES, [("full", n // 4), ("closed", n // 8), ("mixed", n // 8), ("minrt", n // 2)], nontrivial_fn=nontrivial)
     if not ctx.quick:
         st_fixtures.run_stage(ctx, PREFIXES)
+
+
+def replay(ctx, obj):
+    st_cluster.replay_stage(ctx, obj, PREFIXES)
